@@ -20,6 +20,9 @@ var HCLInserts = []string{
 	"“", "”", " ", " ", "́", "‍", "\U0001F600", "é", "日",
 	"#", "//", "/*", "*/", "# c\n", "/* c */",
 	"\\", "\\u12", "\\U0001", "\\n", "\\\"", "\\x", "`", "'", ";", "^", "&", "|",
+	// escapes at the edges of what can be encoded: surrogates, noncharacters, the last code point and beyond
+	"\\ud800", "\\udfff", "\\uD83D", "\\U0000d800", "\\U0000DFFF", "\\uffff", "\\u0000", "\\U0010ffff", "\\U00110000", "\\Uffffffff",
+	"\"\\ud800\"", "\"\\udbff\\udc00\"", "\"\\U0000dfff\"", "\"x\\ud800y\"", "a = \"\\udc00\"\n", "b \"\\ud800\" {}\n", "x[\"\\ud800\"]",
 	"1", "0", "1e5", "0x1f", "1.", ".5", "1.5.2", "1e", "007",
 	"a", "x", "a.b", "a[0]", "f(", "f()", "a = 1\n", "b {\n", "}\n", "b \"l\" {}\n", "\"${a}\"", "[for x in y: x]", "{a = 1}",
 }
